@@ -4,6 +4,7 @@ import (
 	"errors"
 	"fmt"
 	"io"
+	"math"
 	"math/big"
 	"reflect"
 	"regexp"
@@ -12,10 +13,11 @@ import (
 )
 
 var (
-	errExpectation = errors.New("expectation error")
-	errNoOp        = errors.New("no op")
-	errNotANumber  = errors.New("not a number")
-	errPlaceholder = errors.New("not enough arguments for placeholders")
+	errExpectation   = errors.New("expectation error")
+	errNoOp          = errors.New("no op")
+	errNotANumber    = errors.New("not a number")
+	errFloatTooLarge = errors.New("float too large")
+	errPlaceholder   = errors.New("not enough arguments for placeholders")
 )
 
 // Parser turns bytes into Term.
@@ -810,7 +812,10 @@ func integer(sign int64, s string) (Integer, error) {
 }
 
 func float(sign float64, s string) (Float, error) {
-	f, _ := strconv.ParseFloat(s, 64) // Correctly rounded; out of range yields ±Inf / 0 as before.
+	f, _ := strconv.ParseFloat(s, 64) // Correctly rounded.
+	if math.IsInf(f, 0) {
+		return 0, errFloatTooLarge // There's no float that denotes a number this large. Infinity isn't a Prolog number.
+	}
 	return Float(sign * f), nil
 }
 
